@@ -234,10 +234,19 @@ def prove(rep, nmfu, program, prop="C14"):
                 return
 
             def is_access(t):
+                # element i *as a byte*: the access converted to uint8_t (the element type may be plain char, whose sign is the
+                # implementation's), or made through a uint8_t view (raw outputs); an (int) conversion on top preserves the value
                 t = _strip_parens(t)
-                return isinstance(t, tuple) and t[0] == "index" and _strip_parens(t[2]) == ("id", "CH0") and sname in repr(t[1])
+                casts = []
+                while isinstance(t, tuple) and t[0] == "cast":
+                    casts.append(" ".join(str(t[1]).split()))
+                    t = _strip_parens(t[2])
+                if not (isinstance(t, tuple) and t[0] == "index" and _strip_parens(t[2]) == ("id", "CH0") and sname in repr(t[1])):
+                    return False
+                as_byte = "uint8_t" in casts or "uint8_t" in repr(t[1])
+                return as_byte and all(c in ("int", "uint8_t") for c in casts) and casts[-1:] in ([], ["uint8_t"])
             if unsafe:
-                record("StringRefIntegerExpr.unsafe-is-plain-access", is_access(tree), f"with unsafe indexing `{text}` should be the bare element access", {"text": text})
+                record("StringRefIntegerExpr.unsafe-is-plain-access", is_access(tree), f"with unsafe indexing `{text}` should be the element access read as a byte (uint8_t), nothing else", {"text": text})
                 return
             record("StringRefIntegerExpr.enclosed", _enclosed(text, "CH0"), f"the index text is not directly enclosed in ( ) or [ ] in `{text}`", {"text": text})
             good = isinstance(tree, tuple) and tree[0] == "tern" and _strip_parens(tree[3]) == ("num", 0) and is_access(tree[2])
@@ -257,7 +266,7 @@ def prove(rep, nmfu, program, prop="C14"):
                       and (_strip_parens(t[3]) == ("num", cap) if sname == "x" else _strip_parens(t[3])[0] == "sizeof")]
                 rest = [t for t in conj if t not in lo and t not in hi]
                 good = len(lo) == 1 and len(hi) == 1 and all(t[0] == "member" and t[2] == sname for t in rest)
-            record("StringRefIntegerExpr.guarded-read", good, f"`{text}` is not `(0 <= i && i < capacity [&& allocated]) ? element i : 0`", {"text": text, "storage": sname})
+            record("StringRefIntegerExpr.guarded-read", good, f"`{text}` is not `(0 <= i && i < capacity [&& allocated]) ? (uint8_t) element i : 0`", {"text": text, "storage": sname})
         run_node(mk, lambda n_: "StringRefIntegerExpr", check, kinds=("out", "sum"))
 
     # ---------- atoms
